@@ -112,6 +112,12 @@ def cases(tier):
                 if op == 'lcm' and (a == 0 or b == 0):
                     continue  # book: lcm(0,0) error; lcm(x,0) unspecified
                 add('%s|%d|%d' % (op, a, b), '%s(%s, %s)' % (op, xint(a), xint(b)), f(a, b))
+                r = f(a, b)
+                if isinstance(r, int) and not isinstance(r, bool) and abs(r) < (1 << 63) and (abs(a) >= (1 << 63) or abs(b) >= (1 << 63)):
+                    # a long operand and a result that is short again: the result must BE the short integer (equality, zero test and
+                    # hashing inside the language see the representation, the printed digits do not)
+                    add('canon-%s|%d|%d' % (op, a, b), 'let r = %s(%s, %s); (r == %s, r - %s == 0, hash(r) == hash(%s), if(r == 0, 0, 7 %% r))' % (
+                        op, xint(a), xint(b), xint(r), xint(r), xint(r)), (True, True, True, 0 if r == 0 else 7 % r))
             # operator spelling goes through the same function (spot check with the symbol)
             if tier != 'quick' or (abs(a) < 4 or abs(b) < 4):
                 for op in ('add', 'sub', 'mul'):
